@@ -162,8 +162,7 @@ def check_squash(repo: Repo, where: str, alphabet: list[str], max_len: int, trip
         if not (isinstance(compiled, Obj) and isinstance(compiled.__dict__.get("pattern"), str)):
             raise AnalysisError("anchor vanished: OptimizedChoice.pattern no longer returns a compiled pattern")
         pat = compiled.pattern
-        if compiled.__dict__.get("flags", 0) not in (0,):
-            raise AnalysisError(f"OptimizedChoice compiles with global flags {compiled.flags:#x} (O13 decides those)")
+        # global flags on the compiled pattern are O13's subject (they cannot be reproduced with the standard library)
         if pat != built:
             bad.append(("the pattern parse() uses is not the one generate() emits", f"{desc}: parse() matches with `{pat}`, generate() emits `{built}`"))
             return
